@@ -83,7 +83,7 @@ func phaseMain(args []string) {
 	}
 	out.Trace = s.Trace.Hashes
 	out.Times = tt.distinct()
-	out.Done = s.Driver.Done()
+	out.Done = s.Done()
 	out.End = uint64(s.Engine.CurrentTime())
 	out.NextID = timing.GetIDGeneratorNextID()
 	if args[0] != "src" {
